@@ -92,6 +92,7 @@ func main() {
 	harness := flag.String("harness", "/verif/harness", "harness root")
 	out := flag.String("out", "/verif/build/overlay", "output dir")
 	noclock := flag.Bool("noclock", false, "do not rewrite clock calls")
+	only := flag.String("only", "", "comma-separated shim tags to include (shims/<pkg>--<tag>.go.tmpl); empty = all")
 	flag.Parse()
 	os.RemoveAll(*out)
 	if err := os.MkdirAll(*out, 0755); err != nil {
@@ -116,8 +117,12 @@ func main() {
 		base := strings.TrimSuffix(filepath.Base(s), ".go.tmpl") // e.g. core__ceremony or core__ceremony--2
 		pkg := base
 		suffix := ""
+		tag := ""
 		if i := strings.Index(base, "--"); i >= 0 {
-			pkg, suffix = base[:i], "_"+base[i+2:]
+			pkg, suffix, tag = base[:i], "_"+base[i+2:], base[i+2:]
+		}
+		if *only != "" && !strings.Contains(","+*only+",", ","+tag+",") {
+			continue
 		}
 		pkgPath := strings.ReplaceAll(pkg, "__", "/")
 		if _, err := os.Stat(filepath.Join(*repo, pkgPath)); err != nil {
